@@ -56,7 +56,7 @@ def structures(tier):
     sts = []
     lens = range(0, 185) if tier == 'thorough' else QUICK_LENS
     for L in lens:
-        sts.append({'kind': 'lookup', 'len': L, 'noise': L % 2 == 1})
+        sts.append({'kind': 'lookup', 'len': L, 'noise': [False, True, 'fs'][L % 3]})
     for L in (range(0, 121) if tier == 'thorough' else [0, 1, 15, 16, 17, 47, 48, 49, 80, 81]):
         sts.append({'kind': 'gstring', 'len': L})
     for L in (range(0, 65) if tier == 'thorough' else [0, 1, 31, 32, 33, 63, 64]):
@@ -68,7 +68,7 @@ def structures(tier):
             if tier == 'quick' and k == 2:
                 combos.append([57, 3])
             for lens_ in combos:
-                for noise in ((False, True) if (tier == 'thorough' or k == 2) else (False,)):
+                for noise in ((False, True, 'fs') if (tier == 'thorough' or k == 2) else (False,)):
                     sts.append({'kind': 'syscall', 'name': n, 'lens': lens_, 'noise': noise})
     return sts
 
@@ -84,9 +84,13 @@ def _text(ctx, name, n):
     return t
 
 
-def _noise(ts):
+def _noise(ts, kind=True):
+    """an unrelated same-thread record: a scheduler record, or (kind == 'fs') another file-system class record whose
+    payload looks like path text"""
     by_id, by_name = sweep.codes()
-    return sweep.make_event(ts, [1, 2, 3, 4], TID, by_name['MACH_SCHED'])      # unrelated same-thread record (event domain)
+    if kind == 'fs':
+        return sweep.make_event_data(ts, b'/unrelated/fs/record/payload' + bytes(4), TID, by_name['VFS_LOOKUP_DONE'])
+    return sweep.make_event(ts, [1, 2, 3, 4], TID, by_name['MACH_SCHED'])
 
 
 def _records(chunks, code, ts0, noise):
@@ -96,7 +100,7 @@ def _records(chunks, code, ts0, noise):
         evs.append(('chunk', sweep.make_event_data(ts, data, TID, code | q)))
         ts += 1
         if noise:
-            evs.append(('noise', _noise(ts)))
+            evs.append(('noise', _noise(ts, noise)))
             ts += 1
     return evs, ts
 
@@ -244,7 +248,7 @@ def run_syscall(ctx, st):
     evs = [('start', sweep.make_event(10, a, TID, by_name[name] | 1))]
     ts = 11
     if st['noise']:
-        evs.append(('noise', _noise(ts))); ts += 1
+        evs.append(('noise', _noise(ts, st['noise']))); ts += 1
     for i, t in enumerate(texts):
         recs, ts = _records(K.chunk_lookup(t, ctx.int('vnode%d' % i)), by_name['VFS_LOOKUP'], ts, st['noise'])
         evs += recs
